@@ -12,7 +12,7 @@ package dependency
 //@ define DFactSame(d ref) bool = ref(d.defaultFactories) == old(ref(d.defaultFactories)) && mapAt(d.defaultFactories, ref(d.defaultFactories), 0) == old(mapAt(d.defaultFactories, ref(d.defaultFactories), 0)) && foralls(k, has(d.defaultFactories, k) ==> ref(d.defaultFactories[k]) == old(ref(d.defaultFactories[k])))
 //@ define DInstSame(d ref) bool = ref(d.defaultInstances) == old(ref(d.defaultInstances)) && mapAt(d.defaultInstances, ref(d.defaultInstances), 0) == old(mapAt(d.defaultInstances, ref(d.defaultInstances), 0)) && foralls(k, has(d.defaultInstances, k) ==> d.defaultInstances[k] == old(d.defaultInstances[k]))
 //@ define StackSame(d ref) bool = len(d.callstack) == old(len(d.callstack)) && forall(k, 0 <= k && k < len(d.callstack) ==> d.callstack[k] == old(d.callstack[k]))
-//@ define WF(d ref) bool = d.instances != nil && d.factories != nil && d.defaultFactories != nil && ref(d.instances) != ref(d.defaultInstances) && ref(d.factories) != ref(d.defaultFactories)
+//@ define WF(d ref) bool = d.instances != nil && d.factories != nil && d.defaultFactories != nil && (!d.blocked ==> ref(d.instances) != ref(d.defaultInstances)) && ref(d.factories) != ref(d.defaultFactories)
 //@ define InStack(d ref, name string) bool = exists(k, 0 <= k && k < len(d.callstack) && d.callstack[k] == name)
 
 // Re-entrancy: a factory receives the provider and may resolve other dependencies through
@@ -84,6 +84,7 @@ package dependency
 // factory call, its result is memoised; no other name's instance changes.
 //@ func (*Provider).Get [C10]
 //@   requires WF(d)
+//@   ensures WF(d)
 //@   trace dynamic.* as FACTORY
 //@   trace (*Provider).Block as BLOCK
 //@   ensures StackSame(d)
@@ -96,3 +97,30 @@ package dependency
 //@   trace_ensures !old(InStack(d, name)) && old(d.blocked) && old(has(d.instances, name)) : ^BLOCK $
 //@   trace_ensures true : ^BLOCK (FACTORY )?$
 //@   at_call dynamic.* requires typeis($0, "*Provider") && as($0, "*Provider") == d
+
+// ---- injection into tagged fields ----
+// For every field: no tag, no request; otherwise exactly one Get of the tag's name (without
+// the optional marker "?"); the field is set from exactly the instance Get returned; a failed
+// resolution of an optional field is skipped (nothing is set, the walk goes on), of a required
+// field ends the walk with that error; the additional injectors then run in order and the
+// first failing one ends the walk
+// (what the reflection calls themselves can panic on is outside the property)
+//@ func (*Provider).InjectTo [C10]
+//@   requires WF(d)
+//@   skip nil index slice typeassert
+//@   trace reflect.StructTag.Get as TAG bind tag
+//@   trace (*Provider).Get as GET bind got
+//@   trace reflect.ValueOf as VOF
+//@   trace reflect.Value.Set as SET
+//@   trace Injector.InjectTo as INJ bind injerr
+//@   at_call (*Provider).Get in loop 1 requires $0 == d && $1 == ite(hasprefix(tag, "?"), sub(tag, 1, len(tag)), tag)
+//@   at_call reflect.ValueOf in loop 1 requires $0 == got.0
+//@   at_call Injector.InjectTo requires $0 == obj
+//@   loop 1 invariant WF(d)
+//@   loop 1 trace_step tag == "" : ^TAG $
+//@   loop 1 trace_step tag != "" && got.1 != nil : ^TAG GET $
+//@   loop 1 trace_step tag != "" && got.1 == nil : ^TAG GET VOF SET $
+//@   loop 1 trace_step tag != "" && got.1 != nil && !hasprefix(tag, "?") : ^$
+//@   loop 1 trace_step tag != "" && got.1 == nil && got.0 == nil : ^$
+//@   loop 2 trace_step injerr == nil : ^INJ $
+//@   loop 2 trace_step injerr != nil : ^$
